@@ -13,7 +13,6 @@ from harness.props import C09_util as U
 
 PID = "C09"
 K_TAIL = "long-write-keeps-old-tail"
-K_WCMD = "write-command-error-response-desyncs-client"
 K_NONVALUE = "long-write-to-non-value-attribute-reports-success"
 
 MTUS = [23, 24, 27, 28, 185, 247, 512, 517]
@@ -103,7 +102,10 @@ def random_ops(rng, n_ops, mtu=None):
                 ops.append(["read_blob", H_RO, 30])          # exactly the length of the read-only value
         elif k < 0.80:
             # write command to a writable characteristic value (no answer expected)
-            ops.append(["write_command", rng.choice([H_RW, H_RW2, H_WNR, H_WO]), val(rng, rng.choice([0, 1, 5, mtu - 3, mtu - 2, 60])).hex()])
+            # write command: mostly to a writable characteristic value (no answer); sometimes one the
+            # server refuses and answers with an Error Response (the client must ignore it)
+            tgt = rng.choice([H_RW, H_RW2, H_WNR, H_WO, H_RW, H_RW2, H_RO, 0, 99, H_DESC40])
+            ops.append(["write_command", tgt, val(rng, rng.choice([0, 1, 5, mtu - 3, mtu - 2, 60])).hex()])
         elif k < 0.86:
             if rng.random() < 0.25:
                 # accepted only when it changes the value (else refused: known finding class)
@@ -156,7 +158,7 @@ def gen_cases(ctx):
         n_rand, n_ops = 50, 24
     for _ in range(n_rand):
         add(random_ops(rng, n_ops), "random")
-    # malformed stream: write commands the server refuses (they desynchronise the client: known finding),
+    # malformed stream: write commands the server refuses (answered with an Error Response the client must drop),
     # long writes to attributes that are not characteristic values, out-of-range arguments
     for _ in range(12 if ctx.thorough else 4):
         ops = random_ops(rng, 4)
@@ -211,7 +213,7 @@ def oracle(ctx, ci, case, res, stats):
                 "profile": case["profile"], "ops": case["ops"][:si + 1], "mtu": cmtu}
         def bad(what, expected=None, observed=None, key=None):
             nonlocal nv
-            k = key if key is not None else (K_WCMD if desync else None)
+            k = key
             stats["oracle_fail"] = stats.get("oracle_fail", 0) + 1
             if k is None or k not in ctx.kf:
                 # at most 2 replay files per kind of failure, 12 per run (all are counted)
@@ -379,7 +381,7 @@ def run(ctx):
     ]
     ctx.assumptions = ["negotiated MTU >= 23 on both sides (client's server_mtu = server's client_mtu, as set_mtu leaves them)",
                        "value length < 65536 (16-bit offsets of Read Blob / Prepare Write); the statement of the property bounds it by 512",
-                       "procedure starts with the GATT message queue empty and the procedure lock free (invariant of the modelled procedures, except after a refused Write Command: known finding)",
+                       "procedure starts with the procedure lock free and nothing in the GATT message queue but Error Responses sent for refused Write Commands (invariant of the modelled procedures, proved: C09_client_usable_after)",
                        "target handle holds a characteristic value whose declaration is at handle-1 (what Profile builds)"]
     proofs_ok, detail = ctx.check_proofs(lib_targets=["theories/Lib/Bytes.vo"])
     ctx.log("proofs:", proofs_ok, detail.splitlines()[0][:300])
